@@ -20,8 +20,8 @@ SPEC = dict(
          'or reports success with exactly the fault-free result; a sentinel (parse + internal verification + serialization of a known good signature) on the same context gives '
          'the fault-free result; the same operation repeated without a fault on the same context and setup objects gives the fault-free return code and result; after freeing '
          'every returned object, the setup objects and the context no SDK allocation and no HTTP transfer handle is live.',
-    bounds=dict(quick='89 operations; every single fault index where N <= 800, every ceil(N/800)-th index beyond (stride 3 for three async requests and the block signer); no pairs',
-                thorough='89 operations; every single fault index 1..N (largest N about 2400, limit 5000: no operation is strided); all pairs i<j for the operations with N <= 60'),
+    bounds=dict(quick='90 operations; every single fault index where N <= 800, every ceil(N/800)-th index beyond (stride 3 for three async requests and the block signer); no pairs',
+                thorough='90 operations; every single fault index 1..N (largest N about 2400, limit 5000: no operation is strided); all pairs i<j for the operations with N <= 60'),
     technique='exhaustive allocation-fault enumeration (single faults, and fault pairs for small operations) on the real compiled code under ASan/UBSan with a counting allocator funnel and live-block accounting',
     level_text='Every allocation index of every catalogue operation is failed in turn on the real code, from an identical fresh state, under ASan + restricted UBSan with exact '
                'accounting of live SDK blocks; return code, result equality, leak freedom, context usability and repeatability are checked after every injection. This is exhaustive '
